@@ -588,6 +588,33 @@ fn c17(src: &str) -> R {
     Ok(())
 }
 
+
+// ---------------------------------------------------------------- C14 (a narrow consequence of the statement, used to
+// re-confirm recorded findings only): an iterative `%do <name> <start> %to ...` written without its `=` must report
+// MissingExpectedAssign together with a zero-width ASSIGN token at the same offset
+fn c14(src: &str) -> R {
+    let r = lex(src)?;
+    let t = toks(&r.buffer)?;
+    if let Some(rest) = src.strip_prefix("%do ") {
+        if let Some(k) = rest.find(" %to ") {
+            let head = &rest[..k];
+            if !head.contains('=') && !head.starts_with("%while") && !head.starts_with("%until") && !head.contains(';') {
+                let e = r.errors.iter().find(|e| e.error_kind() == ErrorKind::MissingExpectedAssign);
+                match e {
+                    None => return Err("iterative %do without `=`: no MissingExpectedAssign reported".into()),
+                    Some(e) => {
+                        let off = e.at_byte_offset() as usize;
+                        if !t.iter().any(|k| k.ty == TokenType::ASSIGN && k.b0 == off && k.b1 == off) {
+                            return Err(format!("MissingExpectedAssign at {off} without a zero-width ASSIGN token there"));
+                        }
+                    }
+                }
+            }
+        }
+    }
+    Ok(())
+}
+
 fn twin(prop: &str, src: &str) -> R {
     let r = twin_inner(prop, src);
     match (&r, prop) {
@@ -607,10 +634,12 @@ fn twin_inner(prop: &str, src: &str) -> R {
         "C09" => c09(src),
         "C10" => c10(src),
         "C11" => c11(src),
+        "C14" => c14(src),
         "C16" => c16(src),
         "C17" => c17(src),
         "C19" => c01(src),
-        _ => Err(format!("no end-to-end twin for {prop}")),
+        // no end-to-end twin: nothing can be attached, which is not a failure of the input
+        _ => Ok(()),
     }
 }
 
